@@ -243,3 +243,28 @@ Definition match_stereo_stream {B : Type} (beq : B -> B -> bool) (flt : bool)
   | Ok ls => Ok (concat ls)
   | Err e => Err e
   end.
+
+(* the whole call  pattern.get_mapping(target, automorphism_filter=flt, searching_scope=scope, match_stereo=True):
+   the search runs with the image-set filter ON whatever flt is (`automorphism_filter or match_stereo`); what substructure() /
+   get_fast_mapping() / _chiral_morgan answer for a found embedding is looked up in [oracle] (observed, keyed by the embedding) *)
+Definition ms_obs (B : Type) := (option mapping * list (Z * Z) * list (Z * list (Z * B)))%type.
+Fixpoint oracle_get {B : Type} (oracle : list (mapping * ms_obs B)) (mp : mapping) : pyres (ms_obs B) :=
+  match oracle with
+  | [] => Err OtherError                                   (* not observed: the correspondence would report it *)
+  | (k, v) :: r => if mapping_eqb k mp then Ok v else oracle_get r mp
+  end.
+
+Definition get_mapping_match_stereo {QA A QB B B' : Type} (amatch : QA -> A -> bool) (bmatch : QB -> B -> bool) (beq : B' -> B' -> bool)
+           (q_atoms : list (Z * QA)) (q_bonds : list (Z * list (Z * QB))) (o_atoms : list (Z * A)) (o_bonds : list (Z * list (Z * B)))
+           (tcomps : list (list Z)) (flt : bool) (scope : option (list Z)) (oracle : list (mapping * ms_obs B')) : pyres (list mapping) :=
+  match mol_get_mapping amatch bmatch q_atoms q_bonds o_atoms o_bonds tcomps true scope with
+  | Err e => Err e
+  | Ok ms => match all_ok (map (oracle_get oracle) ms) with
+             | Err e => Err e
+             | Ok obs => match_stereo_stream beq flt obs
+             end
+  end.
+
+From Model Require Import Graph.
+Definition mm_get_mapping_match_stereo (q t : mol) :=
+  get_mapping_match_stereo elem_eqb order_eqb Z.eqb (m_atoms q) (m_adj q) (m_atoms t) (m_adj t).
